@@ -60,13 +60,26 @@ def configs(tier, menu):
                     "script": [["start"], ["append", "t/0", ["n1", "n2"], {"time": 2.0}],
                                ["stop", {"consumed": True, "time": 8.0}]],
                     "menu": {"timer_early": True}, "horizon_s": 400})
+        # the application calls stop() from inside the processor (first or second invocation)
+        for k, n in itertools.product((0, 1), (1, 0)):
+            out.append({"cluster": CLUSTER, "discovery": False, "timeout_ms": 5000, "topics": ["t"],
+                        "logs": {"t/0": 2, "t/1": 1}, "group": {"leader": "real"}, "processor": "sync",
+                        "commit_every_n": n, "stop_in_processor": k, "script": [["start"]],
+                        "menu": {"timer_early": True, "err": {"8": [22]}}, "horizon_s": 400})
+        # a coordinator that holds the JoinGroup for 25 s (rebalance in progress, inside the join's own 35 s bound
+        # but well beyond the client's 5 s request timeout)
+        out.append({"cluster": dict(CLUSTER, modes=[{"api": 11, "delay": 25.0, "budget": 1}]), "discovery": False,
+                    "timeout_ms": 5000, "topics": ["t"], "logs": {"t/0": 1, "t/1": 1}, "group": {"leader": "real"},
+                    "processor": "sync", "commit_every_n": 1,
+                    "script": [["start"], ["stop", {"consumed": True, "time": 45.0}]],
+                    "menu": {"timer_early": True}, "horizon_s": 400})
     return out
 
 
 RULE = ("real ConsumerGroup + KafkaClient, 2 brokers, topic t with 2 partitions, coordinator on broker 2; the group has "
         "the member under test plus an optional phantom member (present from the start or joining/leaving as a "
         "cluster event), leader either of them; processor sync/async; auto-commit by count or off; script start, "
-        "consume everything, stop (stop may be issued early at every state).  Deviations: error codes on JoinGroup "
+        "consume everything, stop (stop may be issued early at every state, or from inside the processor).  Deviations: error codes on JoinGroup "
         "{14,15,25,27}, SyncGroup {14,16,22,25,27}, Heartbeat {14,16,22,25,27}, OffsetCommit {14,22,25,27}, "
         "OffsetFetch {14,15,16}, FindCoordinator {15}, LeaveGroup {25}; positions committed in an earlier life of the "
         "group; silent broker (-> timeout), drop, phantom joins / leaves, eviction, coordinator "
@@ -91,8 +104,9 @@ def run(tier, seed, only=None):
                  ("group-3dev-light", configs(tier, MENU_LIGHT), (2, 1, 3))]
     # the two scripted scenarios (heartbeat inside a rejoin backoff; rebalance while a commit is in flight) get a
     # deeper schedule bound of their own
-    scripted = [dict(c, menu=dict(c["menu"], err={"12": [27], "8": [22]})) for c in configs(tier, MENU)[-3:]]
+    scripted = [dict(c, menu=dict(c["menu"], err={"12": [27], "8": [22]})) for c in configs(tier, MENU)[-8:-5]]
     plans.append(("scripted-rebalance-timing", scripted, (1, 2, 3) if tier == "quick" else (2, 2, 4)))
+    plans.append(("slow-join", configs(tier, MENU)[-1:], (0, 1, 1) if tier == "quick" else (1, 1, 2)))
     if only:
         plans = [p for p in plans if p[0] in only]
     return _dfs.run_plans(PROPERTY, SPEC, plans, seed, RULE, ASSUME, max_steps=500)
